@@ -96,15 +96,41 @@ pub fn check_case(c: &TextCase, obs: &mut Obs) -> Verdict {
     obs.class(["inline deadline: none", "inline deadline: expired at probe 0", "inline deadline: real clock, past", "iter_inline_changes (default 500 ms)", "inline deadline: expires at probe 0..3", "inline deadline: expires at probe 0..3", "inline deadline: expires at probe 0..3", "inline deadline: expires at probe 0..3"][opt as usize]);
     obs.class(if c.use_bytes() { "[u8]" } else { "str" });
     obs.class_if(c.has_invalid(), "invalid UTF-8");
+    // how the line diff is built: 0 diff_lines; 1 / 2 with newline_terminated(false / true); 3 / 4
+    // diff_slices over the line tokens (terminators kept), 4 with newline_terminated(true)
+    let how = c.tok % 5;
+    obs.class(["built by diff_lines", "diff_lines + newline_terminated(false)", "diff_lines + newline_terminated(true)", "diff_slices over line tokens", "diff_slices over line tokens + newline_terminated(true)"][how as usize]);
+    let mut cfg = cfg;
+    match how {
+        1 => {
+            cfg.newline_terminated(false);
+        }
+        2 | 4 => {
+            cfg.newline_terminated(true);
+        }
+        _ => {}
+    }
     let r = if c.use_bytes() {
         guard(|| {
-            let d = cfg.diff_lines(&c.old.0[..], &c.new.0[..]);
-            judge(&d, opt, obs)
+            if how >= 3 {
+                let (to, tn) = (c.old.0[..].tokenize_lines(), c.new.0[..].tokenize_lines());
+                let d = cfg.diff_slices(&to, &tn);
+                judge(&d, opt, obs)
+            } else {
+                let d = cfg.diff_lines(&c.old.0[..], &c.new.0[..]);
+                judge(&d, opt, obs)
+            }
         })
     } else {
         guard(|| {
-            let d = cfg.diff_lines(c.old.as_str().unwrap(), c.new.as_str().unwrap());
-            judge(&d, opt, obs)
+            if how >= 3 {
+                let (to, tn) = (c.old.as_str().unwrap().tokenize_lines(), c.new.as_str().unwrap().tokenize_lines());
+                let d = cfg.diff_slices(&to, &tn);
+                judge(&d, opt, obs)
+            } else {
+                let d = cfg.diff_lines(c.old.as_str().unwrap(), c.new.as_str().unwrap());
+                judge(&d, opt, obs)
+            }
         })
     };
     match r {
@@ -187,8 +213,8 @@ fn wordy_pair(invalid: bool) -> BoxedStrategy<(crate::gen::BStr, crate::gen::BSt
 
 fn strat(tier: Tier) -> BoxedStrategy<TextCase> {
     let wordy = |invalid: bool| {
-        (wordy_pair(invalid), 0u8..3, any::<bool>(), 0u8..8)
-            .prop_map(move |((old, new), alg, bytes, opt)| TextCase { old, new, tok: 0, alg, bytes: bytes || invalid, opt })
+        (wordy_pair(invalid), 0u8..3, any::<bool>(), 0u8..8, prop_oneof![4 => Just(0u8), 1 => 1u8..5])
+            .prop_map(move |((old, new), alg, bytes, opt, tok)| TextCase { old, new, tok, alg, bytes: bytes || invalid, opt })
     };
     prop_oneof![20 => wordy(false), 12 => wordy(true), 8 => line_case(tier.pick(20, 60), true), 4 => text_case_mix(60).prop_map(|mut c| { c.tok = 0; c }), 1 => big_line_case(tier.pick(120, 200))].boxed()
 }
@@ -225,7 +251,7 @@ impl Prop for C16 {
     type Case = TextCase;
     const ID: &'static str = "C16";
     fn rule() -> String {
-        "cases = (old, new, algorithm, str | [u8], inline deadline in {None, virtual clock expiring at probe 0..3, real deadline in the past, default iter_inline_changes}); line texts whose lines consist of several words and are mutated at WORD level (replace/insert/delete a word, change the terminator, duplicate/delete a line) so that Replace ops pass both similarity gates; words include multi-byte, combining, emoji, NBSP and (for [u8]) invalid UTF-8 fragments; plus the shared line/text mixtures. Oracle per op: inline tags and old/new indices == plain expansion; segments concatenate to the plain change's line; emphasised segments only in Delete/Insert changes of a Replace op and without CR/LF; missing_newline agrees with the line; no panic. Non-trivial = some line has both an emphasised and a plain segment; distinct = distinct serialized case.".into()
+        "cases = (old, new, algorithm, str | [u8], construction in {diff_lines, diff_lines with newline_terminated(false|true), diff_slices over the line tokens (with/without newline_terminated(true))}, inline deadline in {None, virtual clock expiring at probe 0..3, real deadline in the past, default iter_inline_changes}); line texts whose lines consist of several words and are mutated at WORD level (replace/insert/delete a word, change the terminator, duplicate/delete a line) so that Replace ops pass both similarity gates; words include multi-byte, combining, emoji, NBSP and (for [u8]) invalid UTF-8 fragments; plus the shared line/text mixtures. Oracle per op: inline tags and old/new indices == plain expansion; segments concatenate to the plain change's line; emphasised segments only in Delete/Insert changes of a Replace op and without CR/LF; missing_newline agrees with the line; no panic. Non-trivial = some line has both an emphasised and a plain segment; distinct = distinct serialized case.".into()
     }
     fn assumptions() -> Vec<String> {
         vec!["'line-break character' = CR or LF (the crate's own line convention)".into(), "the default 500 ms deadline variant is judged only by invariants that hold whether or not it expires".into()]
